@@ -181,14 +181,31 @@ the nil-safe `ToProto`. `StreamSearch` first takes `req.GetRequest()` (nil-safe 
 is `Search` with `ListOptionsFromProto`. The request is therefore characterised by the `PQ` the getters yield
 (`absent` when the request, the inner request or the query field is unset). -/
 
+/-- which options value the Streamer is called with -/
+inductive OptsArg where
+  | fromWire   -- the request's `opts` message, converted
+  | zero       -- `&zoekt.SearchOptions{}`: the request left `opts` unset (Search / StreamSearch)
+  | nilOpts    -- nil: the request left `opts` unset (List; `ListOptions.GetField` is nil-safe)
+  deriving Repr, BEq, DecidableEq
+
+inductive Rpc where
+  | search | stream | list
+  deriving Repr, BEq, DecidableEq
+
 inductive HandlerResult where
-  | invalidArgument          -- status.Error(codes.InvalidArgument, …)
-  | callsStreamer (q : Q)    -- the Streamer is invoked with this query; its response or error is returned
+  | invalidArgument                        -- status.Error(codes.InvalidArgument, …)
+  | callsStreamer (q : Q) (opts : OptsArg) -- the Streamer is invoked; its response or error is returned
   deriving Repr, BEq
 
-def handler (env : Env) (query : PQ) : Outcome HandlerResult :=
+/-- `searchOptionsFromRequest` / `ListOptionsFromProto(req.GetOpts())` -/
+def optsArg (rpc : Rpc) (optsSet : Bool) : OptsArg :=
+  if optsSet then .fromWire else match rpc with
+    | .list => .nilOpts
+    | _ => .zero
+
+def handler (env : Env) (rpc : Rpc) (query : PQ) (optsSet : Bool) : Outcome HandlerResult :=
   match fromProto env query with
-  | .ok q => .ok (.callsStreamer q)
+  | .ok q => .ok (.callsStreamer q (optsArg rpc optsSet))
   | .err _ => .ok .invalidArgument
   | .panic s => .panic s
   | .diverge => .diverge
